@@ -298,3 +298,5 @@ PROPS["C11"]["e2"] += [E("map_extents", "p_libfs", "lemma_map_extents"), E("merg
 # translator validation of the MIR interpreter against compiled code (not a property lemma: it guards the trusted base)
 for _p in ("C01", "C19"):
     PROPS[_p]["e2"] += [E("interpreter_selftest", "p_selftest", "lemma_interpreter_selftest")]
+PROPS["C11"]["e2"] += [E("partition", "p_parblock", "lemma_partition")]
+PROPS["C06"]["e2"] += [E("copy_node", "p_libfs", "lemma_copy_node")]
